@@ -612,7 +612,15 @@ impl Model {
                 self.snapshots.insert((*g, *name), (now, self.groups.get(g).cloned(), self.relays.get(g).cloned().unwrap_or_default(), secrets));
                 ok(())
             }
-            StOp::Rollback { g, name } => match self.snapshots.remove(&(*g, *name)) {
+            StOp::Rollback { g, name } => {
+                // a Nostr group id belongs to one group: a snapshot whose id another group has
+                // taken since is refused and kept
+                if let Some((_, Some(grp), ..)) = self.snapshots.get(&(*g, *name)) {
+                    if self.groups.iter().any(|(k, x)| k != g && x.nostr_group_id == grp.nostr_group_id) {
+                        return Some(err());
+                    }
+                }
+                match self.snapshots.remove(&(*g, *name)) {
                 None => err(),
                 Some((_, grp, relays, secrets)) => {
                     match grp {
@@ -630,7 +638,8 @@ impl Model {
                     }
                     ok(())
                 }
-            },
+                }
+            }
             StOp::Release { g, name } => {
                 self.snapshots.remove(&(*g, *name));
                 ok(())
